@@ -287,6 +287,17 @@ func (m *Machine) CallFunc(pos token.Pos, fn *types.Func, recv Value, args []Val
 	return m.callBody(pos, info, nil, decl.Recv, recv, decl.Type, decl.Body, args)
 }
 
+// CallSource interprets the body of a moq function even if a model is registered under its name (for
+// models that fall back on the source).
+func (m *Machine) CallSource(pos token.Pos, fn *types.Func, recv Value, args []Value) (Value, error) {
+	fn = fn.Origin()
+	decl := m.Prog.Decl(fn)
+	if decl == nil || decl.Body == nil || !m.Prog.IsMoqPkg(fn.Pkg()) {
+		return nil, undecided(pos, "call of %s: no source in moq's packages", fn.FullName())
+	}
+	return m.callBody(pos, m.Prog.Info(fn.Pkg()), nil, decl.Recv, recv, decl.Type, decl.Body, args)
+}
+
 func (m *Machine) callBody(pos token.Pos, info *types.Info, env *frame, recvFL *ast.FieldList, recv Value, ft *ast.FuncType, body *ast.BlockStmt, args []Value) (Value, error) {
 	m.depth++
 	defer func() { m.depth-- }()
